@@ -9,7 +9,7 @@ from dataclasses import dataclass, field, replace
 
 from packaging.markers import default_environment
 from packaging.specifiers import InvalidSpecifier, Specifier
-from packaging.version import InvalidVersion
+from packaging.version import InvalidVersion, Version
 
 from dep_logic.markers.any import AnyMarker
 from dep_logic.markers.base import BaseMarker, EvaluationContext
@@ -477,26 +477,33 @@ def _normalize_python_version_specifier(marker: MarkerExpression) -> BaseSpecifi
     if op in ("in", "not in"):
         # skip this case, so in the following code value must be a dotted version string
         return marker.specifier
-    splitted = [p.strip() for p in value.split(".")]
-    if len(splitted) > 2 and all(p.isdigit() for p in splitted):
-        # python_version only ever holds X.Y, i.e. the version X.Y.0: a literal X.Y.Z
-        # with a non-zero tail lies strictly between the X.Y and X.(Y+1) values
-        tail_is_zero = all(int(p) == 0 for p in splitted[2:])
-        splitted = splitted[:2]
-        if tail_is_zero:
-            if op == "~=":
-                # ~=X.Y.0 is ">=X.Y.0, ==X.Y.*": exactly python_version X.Y
-                op = "=="
-        elif op in (">=", ">"):
-            op = ">"
+    wildcard = value.strip().endswith(".*")
+    try:
+        version = Version(value.strip()[:-2] if wildcard else value)
+    except InvalidVersion:
+        return marker.specifier
+    if version.epoch or (op == "~=" and version.public != version.base_version):
+        return marker.specifier
+    # read the segments off the parsed version: "v3.8.1" and "0!3.8" are spellings too
+    splitted = [str(p) for p in version.release[:2]]
+    nearest = Version(".".join(splitted))
+    if version != nearest:
+        # python_version only ever holds X.Y, i.e. the version X.Y.0: any other literal
+        # (X.Y.Z with a non-zero tail, a pre- or post-release) lies strictly between two values
+        if op in (">=", ">"):
+            op = ">=" if version < nearest else ">"
         elif op in ("<=", "<"):
-            op = "<="
+            op = "<" if version < nearest else "<="
         elif op == "!=":
             return RangeSpecifier()
         else:
             # == and ~= can never be satisfied by an X.Y value
             return EmptySpecifier()
-    elif len(splitted) > 2 or "*" in splitted:
+    elif len(version.release) > 2:
+        if op == "~=":
+            # ~=X.Y.0 is ">=X.Y.0, ==X.Y.*": exactly python_version X.Y
+            op = "=="
+    elif wildcard:
         return marker.specifier
     if len(splitted) == 1 and op != "~=":
         # python_version "3" is python_version "3.0"
